@@ -242,8 +242,11 @@ class Proxy:
             )._port
         # --ports flag can also use 0 as value for ephemeral port selection.
         # Here, we override flags.ports to reflect actual listening ports.
+        #
+        # pool[0] is either the unix socket listener or the listener of the
+        # primary port, listeners of the additional ports follow it.
         ports = set()
-        offset = 1 if self.flags.unix_socket_path else 0
+        offset = 1
         for index in range(offset, offset + len(self.flags.ports)):
             ports.add(
                 cast(
@@ -251,7 +254,8 @@ class Proxy:
                     self.listeners.pool[index],
                 )._port,
             )
-        if self.flags.port in ports:
+        # flags.port is not bound when listening on a unix socket
+        if not self.flags.unix_socket_path and self.flags.port in ports:
             ports.remove(self.flags.port)
         self.flags.ports = list(ports)
         # Write ports to port file
